@@ -21,7 +21,7 @@ from ..tlaval import to_tla
 from . import linop_build
 
 INVS = ["ShapeSound", "MechanismMeansM", "AdjShapes", "AdjCorrect", "AdjInvolution", "NormalCorrect"]
-ALL_CALLS = ["Push", "Dup", "Mul", "Add", "Sub", "ScaleL", "ScaleR", "Conj", "Hstack", "Vstack", "Diag", "H", "N"]
+ALL_CALLS = ["Push", "Dup", "Mul", "Add", "Sub", "ScaleL", "ScaleR", "Conj", "Hstack", "Vstack", "Diag", "AddN", "ComposeN", "H", "N"]
 
 
 def leaf(k, *a):
@@ -252,7 +252,7 @@ def themes(ctx):
     if not th:
         # three operands (split indices beyond the first boundary), fewer atoms / axes to stay small
         T.append(dict(name="stack3", atoms=stack_catalogue()[:5], scalars=[(0, 1)], axes=none_and([0, -1, 1]), arities="{3}",
-                      max_stack=3, max_flat=16, max_level=4, calls=["Push", "Hstack", "Vstack", "Diag"]))
+                      max_stack=3, max_flat=16, max_level=4, calls=["Push", "Hstack", "Vstack", "Diag", "AddN", "ComposeN"]))
     return T
 
 
@@ -434,6 +434,10 @@ def check_rejection(item):
                 R = ops[0] + ops[1]
             elif call == "Sub":
                 R = ops[0] - ops[1]
+            elif call == "AddN":
+                R = L.Add(ops)
+            elif call == "ComposeN":
+                R = L.Compose(ops)
             elif call == "Hstack":
                 R = L.Hstack(ops, axis=ax(args[0]))
             elif call == "Vstack":
